@@ -15,10 +15,9 @@ NONCONT = ['===', '!==', '..', '->', ':', ')', ']', '}', 'x', 'abc_1', '12', '1_
 WS = [0x20, 0x09, 0x0D]
 
 def lexer_fns(M):
-    new = [n for n in M.bodies if re.search(r'^lexer::<impl at src/lexer/mod.rs:\d+:1: \d+:\d+>::new$', n)]
-    nxt = [n for n in M.bodies if re.search(r'^lexer::<impl at src/lexer/mod.rs:\d+:1: \d+:\d+>::next$', n)]
-    if len(new) != 1 or len(nxt) != 1: raise Unsupported('Lexer::new / Lexer::next not found')
-    return new[0], nxt[0]
+    from mirsym import core as _core
+    try: return _core.find_by_sig(M, *_core.LEXER_NEW_SIG), _core.find_by_sig(M, *_core.LEXER_NEXT_SIG)
+    except AssertionError: raise Unsupported('Lexer::new / Lexer::next not found')
 
 def lex_tokens(M, elems, limit=400):
     """run the real lexer to exhaustion; returns list of token payload tuples, last element ('eof',) or ('lexerr', variant)"""
